@@ -84,7 +84,7 @@ def check(ctx):
                       file=px.rel, function="CParser._scan_declarator_name_info")
     nspec = 0
     for key, pa in g.pa.items():
-        for origin, erased, src, line in pa.spec:
+        for seg in pa.spec:
             nspec += 1
             ctx.oblige("R-C18.2", f"speculative segment in {key[0]} resets to a tracked mark", True, nontrivial=False)
     ctx.info["speculative_segments"] = nspec
